@@ -806,7 +806,22 @@ func (it *Interp) Reach(label string, c *smt.Term) {
 		to = 20_000 // sampling failed: this path is probably degenerate; another path will witness the label
 	}
 	r, err := it.S.Check(as, to)
-	if err != nil || r != smt.Sat {
+	if err != nil || r == smt.Unknown {
+		// the solver gave up: many more sampled assignments than the pre-solver tries
+		if env := it.sampleWitnessN(c, 4000); env != nil {
+			if it.work != nil {
+				it.work.markReached(label)
+			}
+			it.jr.Reached[label] = true
+			it.jr.Witness[label] = it.tapeFromEnv(env)
+			if it.jr.WitnessCase == nil {
+				it.jr.WitnessCase = map[string]int{}
+			}
+			it.jr.WitnessCase[label] = it.caseN
+		}
+		return
+	}
+	if r != smt.Sat {
 		return
 	}
 	tape, _, err := it.tapeFromModel()
